@@ -196,7 +196,13 @@ def decide(pid, tier, units, args):
     results = run_units(mods, tier, keep=args.keep, verbose=args.verbose)
     undec = [r for r in results if r.status != "ok"]
     obligations = [o for r in results for o in r.obligations if pid in o["props"]]
-    failures = [f for r in results for f in r.failures if pid in f["props"]]
+    failures = []
+    for f in (f for r in results for f in r.failures if pid in f["props"]):
+        same = [g for g in failures if g["id"] == f["id"]]
+        if same:     # several failing assertions inside one obligation (e.g. two loop invariants of one body): one report
+            same[0]["detail"] = (same[0].get("detail") or "") + "\n" + (f.get("detail") or "")
+        else:
+            failures.append(f)
     bounded = [b for r in results for b in r.bounded if pid in b["props"]]
     viol = []
     for f in failures:
